@@ -592,7 +592,7 @@ def binop(ex, op, l, r, inplace=False):
         if isinstance(l, (str, SStr)) and isinstance(r, (str, SStr)):
             if isinstance(l, str) and isinstance(r, str):
                 return l + r
-            return OPAQUE
+            return opaque_str(braces=may_carry_braces(l) or may_carry_braces(r), sources=brace_sources([l, r]))
         if isinstance(l, SList) and inplace:
             list_extend(ex, l, r)
             return l
@@ -858,6 +858,49 @@ def arith(l, r, f):
 
 
 _UNKNOWN_REP = object()
+
+
+def opaque_str(braces=False, sources=()):
+    """an opaque string; braces=True marks text that may contain '{' or '}' because it was built from symbolic
+    octets or text (only such strings make a later .format() on them raise); sources are the byte strings the
+    braces could come from"""
+    if not braces:
+        return OPAQUE
+    r = SStr(opaque=True)
+    r.braces = True
+    r.sources = list(sources)
+    return r
+
+
+def may_carry_braces(v):
+    if isinstance(v, SStr):
+        return getattr(v, 'braces', False)
+    if isinstance(v, SBytes):
+        return v.conc is None or b'{' in bytes(v.conc) or b'}' in bytes(v.conc)
+    return False        # literals: braces in them are the programmer's replacement fields
+
+
+def brace_sources(vs):
+    out = []
+    for v in vs:
+        if isinstance(v, SStr):
+            out += getattr(v, 'sources', [])
+        elif isinstance(v, SBytes) and may_carry_braces(v):
+            out.append(v)
+    return out
+
+
+def assume_some_brace(ex, sources):
+    """path constraint for the raising branches of .format() on data-built text: one of the source byte strings
+    starts with a lone '}' (its repr then puts a single '}' into the text, which str.format refuses) - a witness
+    the replay can confirm; the branch itself stands for every way braces in the data can break the format"""
+    alts = []
+    for b in sources:
+        if b.conc is not None:
+            continue
+        alts.append(z3.And(zlen(b) >= 1, _z(b.at(0)) == 0x7D, z3.Or(zlen(b) == 1, _z(b.at(1)) != 0x7D)))
+    if alts:
+        ex.assume(mk_bool(z3.Or(*alts)))
 
 
 def fmt_rep(v):
